@@ -31,7 +31,7 @@ stream is stored next to the hash so that a CHANGED item is reported with file +
                                        oracle `family-exercised:<family>` if a declared family produced no compiled value)
     n/a:<reason>                       not on the compile -> read-back path (builder-only, test-only scaffolding, …)
 
-An item that is NEW, CHANGED (hash differs from the reviewed one), UNCOVERED (cover missing / malformed) or whose cover
+An item that is NEW, REMOVED (in the table but no longer in the source), CHANGED (hash differs from the reviewed one), UNCOVERED (cover missing / malformed) or whose cover
 names a Lean definition / generator family that does not exist is reported in `unparsed` ⇒ `./check C04` prints
 VIOLATION … no-failing-input-found naming the item.
 
@@ -406,6 +406,10 @@ def main():
                              "why": "named by a #[compile/compile_with/validate/to_owned] attribute but no `fn` of that name found in write-fonts/src",
                              "text": ""})
     stale = sorted(k for k in known if k not in cur)
+    for k in stale:
+        unparsed.append({"file": k.split("::")[0], "item": k, "line": 0,
+                         "why": "REMOVED: the reviewed item no longer exists (deleted, renamed or moved); re-review and update the cover table",
+                         "text": known[k].get("tokens", "")[:240]})
 
     if a.update:
         new = {}
